@@ -247,6 +247,18 @@ func checkStats(c *explore.Ctx, scope string, idx int64, where string, seg segme
 				return
 			}
 			got[f] = model.Stats{Total: cs.TotalDocumentCount(), Docs: cs.DocumentCount(), SumTF: cs.SumTotalTermFrequency()}
+			// the caller folds other statistics into the object it was handed; the segment's next
+			// answer must not have moved
+			cs.Merge(cs)
+			var cs2 segment.CollectionStats
+			cs2, err = seg.CollectionStats(f)
+			if err != nil {
+				return
+			}
+			if again := (model.Stats{Total: cs2.TotalDocumentCount(), Docs: cs2.DocumentCount(), SumTF: cs2.SumTotalTermFrequency()}); again != got[f] {
+				err = fmt.Errorf("field %q asked again after the caller merged into the first answer: %v, first answer %v", f, again, got[f])
+				return
+			}
 		}
 	})
 	if msg != "" || err != nil {
